@@ -16,6 +16,7 @@
 import Proofs.C10_Setters
 import Proofs.C10_Elastic
 import Proofs.C10_Objects
+import Proofs.C10_Error
 import Atomman.C09
 import Mathlib.Algebra.Order.Field.Rat
 
@@ -107,6 +108,31 @@ theorem valueUnit_model_xml (fac : String → K) (units : Option String) (a : Ar
 theorem xmlShape_eq (sh : List Nat) (h : sh ≠ [1]) : xmlShape sh = sh := by simp [xmlShape, h]
 
 example : xmlShape [1, 1] = [1, 1] ∧ xmlShape [4, 1, 3] = [4, 1, 3] ∧ xmlShape [1] = [] := by decide
+
+/-- **errorUnit_model**: a value stored together with its uncertainty (`uc.model(a, units, error=e)`): both
+    `uc.value_unit` and `uc.error_unit` return what was stored — shape and buffer — for every shape and every unit
+    with a non-zero factor. -/
+theorem errorUnit_model (fac : String → K) (units : Option String) (a : Arr K) (e : List K)
+    (hw : a.data.length = prodNat a.shape) (he : e.length = prodNat a.shape) (hne : prodNat a.shape ≠ 0)
+    (hf : ∀ u, units = some u → factor fac u ≠ 0) (hs : ∀ l, a.data = Data.str l → units = none) :
+    ∃ t, ucModelE fac units a e = some t ∧ valueUnit fac t = some ⟨a.shape, a.data.castU units⟩ ∧
+      errorUnit fac t = some ⟨a.shape, .flt e⟩ := by
+  obtain ⟨t, h1, h2, h3⟩ := errorUnit_model_two_aux fac fac units a e hw he hne hs
+  refine ⟨t, h1, by rw [h2, rescale_self fac units hf], ?_⟩
+  rw [h3]
+  have hid : scaleFn fac fac units = fun x => x := funext (scaleFn_self fac units hf)
+  simp [hid]
+
+/-- **errorUnit_model_two**: written under `fac1`, read under `fac2`: value and error are rescaled by the same
+    function `x ↦ x / fac1 u · fac2 u` (the identity without a unit) — the stored uncertainty is a quantity in the
+    stored unit, like the value. -/
+theorem errorUnit_model_two (fac1 fac2 : String → K) (units : Option String) (a : Arr K) (e : List K)
+    (hw : a.data.length = prodNat a.shape) (he : e.length = prodNat a.shape) (hne : prodNat a.shape ≠ 0)
+    (hs : ∀ l, a.data = Data.str l → units = none) :
+    ∃ t, ucModelE fac1 units a e = some t ∧
+      valueUnit fac2 t = some ⟨a.shape, a.data.rescale fac1 fac2 units⟩ ∧
+      errorUnit fac2 t = some ⟨a.shape, .flt (e.map (scaleFn fac1 fac2 units))⟩ :=
+  errorUnit_model_two_aux fac1 fac2 units a e hw he hne hs
 
 /-! ## physical value vs working units -/
 
